@@ -43,7 +43,10 @@ func DerivO(r *Regex, char *rune, dr *Regex) Goal {
 									EqualO(dr, Or(Concat(da, b), db)),
 								)
 							}),
-							EqualO(dr, Concat(da, b)),
+							ConjO(
+								NullO(a, EmptySet()),
+								EqualO(dr, Concat(da, b)),
+							),
 						),
 					)
 				})
